@@ -68,7 +68,7 @@ func init() {
 			Setup:       func(ctx *fw.Ctx) error { return refSelfTest(false) },
 			Gen: func(ctx *fw.Ctx) []fw.Case {
 				var cs []fw.Case
-				np := 40
+				np := 200
 				if !ctx.Quick {
 					np = 1500
 				}
@@ -97,14 +97,14 @@ func init() {
 						cs = append(cs, fw.Case{ID: fmt.Sprintf("ntom/%d/%d", n, m), Kind: "ntom", P: map[string]any{"n": n, "m": m}})
 					}
 				}
-				nf := 60
+				nf := 300
 				if !ctx.Quick {
 					nf = 1200
 				}
 				for i := 0; i < nf; i++ {
 					cs = append(cs, fw.Case{ID: fmt.Sprintf("func/%d", i), Kind: "func", P: map[string]any{"i": i}})
 				}
-				ns := 8
+				ns := 24
 				if !ctx.Quick {
 					ns = 80
 				}
